@@ -87,10 +87,13 @@ package ply
 // buffer (the ArrayIterator.At precondition makes each read an obligation: in range for every well-formed
 // mesh, welded or not).  written(out) is the ghost byte count of the writer.
 
+//@ spec uvOf(model modeling.Mesh, c int) vector2.Float64 = model.v2Data["TexCoord"][model.indices[c]]
+
 //@ func writeBinaryTriTopo
 //@   props C01 C04
 //@   modifies ghost written
 //@   requires modeling.wf(model)
+//@   requires indices_fit_the_32_bit_field: forall c int :: 0 <= c && c < len(model.indices) ==> model.indices[c] < 4294967296
 //@   returns err
 //@   ensures size_law_uv: err == nil && model.topology == modeling.TriangleTopology && has(model.v2Data, "TexCoord") ==> written(out) == old(written(out)) + 38 * (len(model.indices) / 3)
 //@   ensures size_law_plain: err == nil && model.topology == modeling.TriangleTopology && !has(model.v2Data, "TexCoord") ==> written(out) == old(written(out)) + 13 * (len(model.indices) / 3)
@@ -100,11 +103,22 @@ package ply
 //@     invariant len(buf) == 38 && fresh(buf)
 //@     invariant indices != nil && indices.data == model.indices && texData != nil && texData.data == model.v2Data["TexCoord"]
 //@     invariant written(out) == old(written(out)) + 38 * (i / 3)
+//@     invariant fit: forall c int :: 0 <= c && c < len(model.indices) ==> 0 <= model.indices[c] && model.indices[c] < 4294967296
+//@     step first_index_slot: b32(buf, 1) == model.indices[prev(i)]
+//@     step second_index_slot: b32(buf, 5) == model.indices[prev(i) + 1]
+//@     step third_index_slot: b32(buf, 9) == model.indices[prev(i) + 2]
+//@     step texture_coordinates_of_the_three_corners: b32(buf, 14) == f32bits(f32(uvOf(model, prev(i)).X())) && b32(buf, 18) == f32bits(f32(uvOf(model, prev(i)).Y())) &&
+//@         b32(buf, 22) == f32bits(f32(uvOf(model, prev(i) + 1).X())) && b32(buf, 26) == f32bits(f32(uvOf(model, prev(i) + 1).Y())) &&
+//@         b32(buf, 30) == f32bits(f32(uvOf(model, prev(i) + 2).X())) && b32(buf, 34) == f32bits(f32(uvOf(model, prev(i) + 2).Y()))
 //@   loop 2:
 //@     invariant 0 <= i && i <= len(model.indices) && i % 3 == 0
 //@     invariant len(buf) == 13 && fresh(buf)
 //@     invariant indices != nil && indices.data == model.indices
 //@     invariant written(out) == old(written(out)) + 13 * (i / 3)
+//@     invariant fit: forall c int :: 0 <= c && c < len(model.indices) ==> 0 <= model.indices[c] && model.indices[c] < 4294967296
+//@     step first_index_slot: b32(buf, 1) == model.indices[prev(i)]
+//@     step second_index_slot: b32(buf, 5) == model.indices[prev(i) + 1]
+//@     step third_index_slot: b32(buf, 9) == model.indices[prev(i) + 2]
 
 // ---- C04: binary vertex property records ------------------------------------------------------------
 // A built 3-vector writer emits, for vertex i, one record of exactly three scalars of its declared type.
